@@ -205,7 +205,15 @@ class Node(xml.dom.Node):
             else:
                 newChild.previousSibling = None
             newChild.parentNode = self
+            self._child_attached(newChild)
         return newChild
+
+    def _child_attached(self, newChild):
+        """ Keeps ownerDocument and the document-wide indexes in step with the tree """
+        doc = getattr(self, 'ownerDocument', None)
+        _set_owner(newChild, doc)
+        if doc and newChild.nodeType == Node.ELEMENT_NODE:
+            doc.rebuild_caches(newChild)
 
     def appendChild(self, newChild):
         """ Adds the node newChild to the end of the list of children of this node.
@@ -222,6 +230,7 @@ class Node(xml.dom.Node):
             newChild.parentNode.removeChild(newChild)
         _append_child(self, newChild)
         newChild.nextSibling = None
+        self._child_attached(newChild)
         return newChild
 
     def removeChild(self, oldChild):
@@ -239,6 +248,7 @@ class Node(xml.dom.Node):
         oldChild.nextSibling = oldChild.previousSibling = None
         if self.ownerDocument and oldChild.nodeType == Node.ELEMENT_NODE:
             self.ownerDocument.remove_from_caches(oldChild)
+        _set_owner(oldChild, None)
         oldChild.parentNode = None
         return oldChild
 
@@ -256,6 +266,12 @@ class Node(xml.dom.Node):
 
 defproperty(Node, "firstChild", doc="First child node, or None.")
 defproperty(Node, "lastChild",  doc="Last child node, or None.")
+
+def _set_owner(node, doc):
+    if node.nodeType == Node.ELEMENT_NODE:
+        node.ownerDocument = doc
+        for child in node.childNodes:
+            _set_owner(child, doc)
 
 def _append_child(self, node):
     # fast path with less checks; usable by DOM builders if careful
@@ -441,9 +457,6 @@ class Element(Node):
             if element.qname not in self.allowed_children:
                 raise IllegalChild( "<%s> is not allowed in <%s>" % ( element.tagName, self.tagName))
         self.appendChild(element)
-        self._setOwnerDoc(element)
-        if self.ownerDocument:
-            self.ownerDocument.rebuild_caches(element)
 
     def addText(self, text, check_grammar=True):
         """ Adds text to an element
